@@ -4,7 +4,8 @@ Explicit-state search over operation sequences on REAL working trees on /dev/shm
 Alphabet over a bounded namespace (files a, b, d/a; directory d; contents x, y; variants with a
 second directory e, a nested directory d/e, and on-disk kind changes): write(p,c), chmod(p),
 mkdir(d), add(p), smart_add(.), remove(p) keep/force/default, unversion(p), rename_one(p,q),
-move([p],d), commit, revert(), revert([p]), file<->directory kind change, re-open.  Events are
+move([p],d) (each also recorded after the fact: path moved on disk first, after=True or
+auto-detected), commit, revert(), revert([p]), file<->directory kind change, re-open.  Events are
 enabled by a boring reference model (dict path -> (identity, kind, content, exec), versioned
 set, basis copy; git: no identities, directories implied by files); BFS from the empty tree and
 from a populated committed tree, dedup on the canonical model state.  After EVERY transition
@@ -14,7 +15,9 @@ is_versioned / path2id, kind, get_file_text, is_executable, the basis tree, file
 iter_changes(basis) (with and without unversioned) against the model diff (git: as
 add/remove/modify sets, rename pairing not required); then the tree is re-opened and the whole
 observation must be identical.  Every transition is run on a copy of the state opened afresh
-("each command a new process"); representative histories, and all transitions up to a smaller
+("each command a new process") and, for tree operations, once more inside ONE write lock whose
+caches (all_versioned_paths, iter_entries_by_dir, list_files) were filled first, with the
+comparison also made before the lock is released; representative histories, and all transitions up to a smaller
 depth, are also run on one live object.  bzr and git are separate sub-runs with separate
 signatures.
 """
@@ -126,7 +129,10 @@ def replay(ctx, data):
             for o in d["history"]]
     ts.warm(kind)
     try:
-        if d.get("mode") == "live object":
+        if d.get("mode") == "one lock, warm caches":
+            tree, m = ts.replay(hist[:-1], kind, ns, check=False)
+            ts.step(ts.reopen(tree), m, hist[-1], kind, None, check=True, warm=True)
+        elif d.get("mode") == "live object":
             ts.replay(hist, kind, ns, check=True)
         else:
             tree, m = ts.replay(hist[:-1], kind, ns, check=False)
